@@ -93,6 +93,18 @@ def check(cx):
                    "%d block writes / %d seeks" % (len(writes), len(seeks)),
                    "perform_flush has %d write_all / %d seek calls; the data blocks and block zero "
                    "need one each" % (len(writes), len(seeks)))
+        # every block write is positioned: between two writes (and before the first) the file is sought - a write that relies
+        # on where the previous force left the cursor lands behind block zero when nothing was queued
+        raw_writes = [c for c in pf.calls() if is_write(c.callee)]
+        seek_bbs = {c.bb for c in pf.calls() if is_seek(c.callee)}
+        starts = {0} | {c.term["to"] for c in raw_writes if c.term.get("to") is not None}
+        unpos = pf.reachable(starts, blocked=seek_bbs) if raw_writes else set()
+        late = [c for c in raw_writes if c.bb in unpos]
+        if raw_writes:
+            cx.verdict(not late, r3, "writes-positioned", (late[0] if late else raw_writes[0]).where(),
+                       "each of the %d write_all calls is reached only through a seek issued after the previous write" % len(raw_writes),
+                       "a block write can be reached without a seek since the previous write (or since entry): it lands wherever the "
+                       "last force left the file position")
         good = bool(syncs) and p.all_success_paths_call(pf, {s.callee for s in syncs}, 0)
         cx.verdict(good, r3, "sync", pf.where(), "every success path ends in sync_all",
                    "a success path of perform_flush returns without sync_all")
